@@ -1,6 +1,8 @@
 import Mutagen.Model.Lifecycle
 import Mutagen.Proofs.Lifecycle
 import Mutagen.Proofs.Lifecycle2
+import Mutagen.Proofs.Lifecycle3
+import Mutagen.Proofs.Lifecycle4
 /-!
 # C29 — session lifecycle commands take effect exactly as documented
 
@@ -86,5 +88,34 @@ theorem pause_ends_only_by_resume_reset_terminate {w : Bool} {tr : List Label} {
       · exact Or.inl h1
       · exact Or.inr (Or.inl ⟨th, hth, h1⟩)
       · exact Or.inr (Or.inr ⟨th, hth, h1⟩)
+
+/-- **`Paused` is persisted before `pause` returns.** In every run, when a
+`pause` call returns successfully there is an earlier point of the same run,
+during the call (the call `t` is in flight there), at which the `Paused` flag
+was on disk and the run loop had terminated (its `done` was closed, after the
+endpoints were shut down). Together with `paused_session_is_silent` and
+`pause_ends_only_by_resume_reset_terminate`: from that point on nothing
+happens at the endpoints until a `resume`/`reset` clears the flag. -/
+theorem pause_persisted_before_return {w : Bool} {tr : List Label} {s s' : State} {t : Nat}
+    (r : Run (init w) tr s) (st : Step s (.ret t .pause .ok) s') :
+    ∃ tr1 s1 tr2, Run (init w) tr1 s1 ∧ Run s1 tr2 s ∧ tr = tr1 ++ tr2 ∧
+      s1.sess = some true ∧ s1.loop = none ∧ ∃ y ∈ s1.threads, y.id = t ∧ y.op = .pause := by
+  obtain ⟨⟨th, hth, h1, h2, h3⟩, _⟩ := ret_source st
+  obtain ⟨tr1, s1, tr2, r1, r2, e, hs, hl, y, hy, hy1, hy2, _⟩ := pause_persisted r th hth h2 h3
+  exact ⟨tr1, s1, tr2, r1, r2, e, hs, hl, y, hy, hy1.trans h1, hy2⟩
+
+/-- **Terminate is final.** In every run, when a `terminate` call returns
+successfully the session file and the archive are gone, the controller is
+disabled with no run loop, and the session is no longer registered with the
+manager (so a reload finds nothing and later calls do not find the session). -/
+theorem terminate_final {w : Bool} {tr : List Label} {s s' : State} {t : Nat}
+    (r : Run (init w) tr s) (st : Step s (.ret t .terminate .ok) s') :
+    s'.sess = none ∧ s'.arch = none ∧ s'.running = false ∧ s'.loop = none ∧ s'.crit = none ∧
+    s'.disabled = true ∧ s'.entry = false := by
+  obtain ⟨⟨th, hth, _, h2, h3⟩, hs'⟩ := ret_source st
+  obtain ⟨g, he⟩ := (invT_run r th hth h2).2 h3
+  obtain ⟨g1, g2, g3, g4, g5, g6⟩ := g
+  subst hs'
+  exact ⟨g1, g2, g3, g4, g5, g6, he⟩
 
 end Mutagen.Properties.C29
